@@ -253,6 +253,42 @@ example : runLoader (LoaderObj.mk (some (true, [[], ['p'], ['q'], ['r']]))) ⟨f
     [.ok ⟨[['p'], ['q'], "tasks.py".toList], [['p'], ['q']], [['p'], ['q']]⟩,
      .ok ⟨[['p'], ['q'], "tasks.py".toList], [['p'], ['q']], [['p'], ['q']]⟩] := by decide
 
+/-! ### directories named like the collection
+
+`load` tells a package from a module by what `find` found (`spec.parent`), never by the NAME of the
+enclosing directory: a plain module `build.py` inside a directory that is itself called `build` is a module,
+and its project directory is that directory. -/
+
+/-- `/ws/build/build.py` (a module in a directory of its own name, next to a decoy `/ws/invoke.yaml`), and
+    `/ws/tasks/__init__.py` with `/ws/tasks/tasks/tasks.py` inside the package directory -/
+def exNamedLay : Layout :=
+  [([], [['w', 's']]),
+   ([['w', 's']], ["build".toList, "tasks".toList, "invoke.yaml".toList]),
+   ([['w', 's'], "build".toList], ["build.py".toList, "deep".toList, "invoke.yaml".toList]),
+   ([['w', 's'], "build".toList, "deep".toList], []),
+   ([['w', 's'], "tasks".toList], [initPy, "tasks".toList]),
+   ([['w', 's'], "tasks".toList, "tasks".toList], ["tasks.py".toList])]
+
+/-- module in a same-named directory: project directory = that directory (not its parent), from the directory
+    itself and from below -/
+example : loadFrom (fsOf exNamedLay) [] true [[], ['w', 's'], "build".toList, "deep".toList] "build".toList =
+    .ok ⟨[['w', 's'], "build".toList, "build.py".toList], [['w', 's'], "build".toList], [['w', 's'], "build".toList]⟩ ∧
+    loadFrom (fsOf exNamedLay) [['w', 's'], "build".toList] false [] "build".toList =
+    .ok ⟨[['w', 's'], "build".toList, "build.py".toList], [['w', 's'], "build".toList], [['w', 's'], "build".toList]⟩ := by
+  decide
+/-- `tasks/tasks/tasks.py`: from the innermost directory the module there wins and its directory is the project
+    directory; from the package directory `/ws/tasks` (whose `tasks/` entry has no `__init__.py`) the package
+    `/ws/tasks/__init__.py` is found one level up and the project directory is `/ws` -/
+example : loadFrom (fsOf exNamedLay) [] true [[], ['w', 's'], "tasks".toList, "tasks".toList] "tasks".toList =
+    .ok ⟨[['w', 's'], "tasks".toList, "tasks".toList, "tasks.py".toList], [['w', 's'], "tasks".toList, "tasks".toList],
+         [['w', 's'], "tasks".toList, "tasks".toList]⟩ ∧
+    loadFrom (fsOf exNamedLay) [] true [[], ['w', 's'], "tasks".toList] "tasks".toList =
+    .ok ⟨[['w', 's'], "tasks".toList, initPy], [['w', 's'], "tasks".toList], [['w', 's']]⟩ := by decide
+/-- a start spelled with `..` that steps out of a directory holding a candidate: `/ws/build/../tasks/..` is `/ws`,
+    where nothing is found - `/ws/build/build.py` is not at or above the start -/
+example : find (fsOf exNamedLay) [] true [[], ['w', 's'], "build".toList, dotdot, "tasks".toList, dotdot] "build".toList = .notFound ∧
+    find (fsOf exNamedLay) [['w', 's'], "build".toList, "deep".toList] false [dotdot, dotdot] "build".toList = .notFound := by decide
+
 /-- a candidate that sits in the filesystem root: `/mycoll/__init__.py`, start `/p/q` -/
 def exRootLay : Layout :=
   [([], [['p'], "mycoll".toList]), (["mycoll".toList], [initPy]), ([['p']], [['q']]), ([['p'], ['q']], [])]
